@@ -37,7 +37,16 @@ var ErrNamingFormat = errors.New("不支持的命名样式")
 // 理论上甚至可以使用分隔符如 go#Designer，但还是要遵循操作系统的文件命名规范。
 // 注意：FileNamingFormat 基于蛇式或驼峰。
 func FileNamingFormat(format, content string) (string, error) {
-	upperFormat := strings.ToUpper(format)
+	// 只把 ASCII 字母转成大写（两个标记词都是 ASCII）：strings.ToUpper 会改变某些
+	// 非 ASCII 字母的字节长度（如 ɐ→Ɐ、ſ→S），在大写串里找到的下标就不能再用来切原串，
+	// 轻则切错位置，重则越界 panic。
+	upperBytes := []byte(format)
+	for i, c := range upperBytes {
+		if 'a' <= c && c <= 'z' {
+			upperBytes[i] = c - 'a' + 'A'
+		}
+	}
+	upperFormat := string(upperBytes)
 	indexGo := strings.Index(upperFormat, flagGo)
 	indexDesigner := strings.Index(upperFormat, flagDesigner)
 	if indexGo < 0 || indexDesigner < 0 || indexGo > indexDesigner {
